@@ -9,7 +9,8 @@ spec -> code  every row of the exported table is concretised (the colliding name
               under a fixed nonce prefix; credentials are random keys; the cache is warmed by real authentications that are
               recorded) and presented to a real serveruser.Registry; a second family warms the cache in one generation, obtains
               an authentication, reloads (also to no usable user) and records the stale authentication afterwards; a third runs
-              reloads concurrently with probes and keeps the probes no reload overlapped
+              reloads concurrently with probes and keeps the probes no reload overlapped; a fourth lets the reload complete inside the
+              discovery of the probed segment, through the seam of discoverUser (hook VerifDiscover, tag verif)
 code -> spec  TLC validates every record (Trace_UserDiscovery): Authenticated, NoCredentialRejected, MandatoryHintRejected,
               HintPreferred, Accepted, CacheIndependent on what the real registry answered; Conforms (candidate order) as drift
 """
@@ -85,6 +86,9 @@ def run(ctx):
         if not ctx.thorough():
             reload_rows = rnd.sample(reload_rows, 2500)
         rows += reload_rows
+        # the same reloads, but completing INSIDE the discovery of the probed segment (after its first attempt on the old generation)
+        seam_rows = [dict(r, seam=True) for r in (reload_rows if ctx.thorough() else rnd.sample(reload_rows, 800))]
+        rows += seam_rows
         pin, pout, prace = (os.path.join(wd, n) for n in ("rows.ndjson", "real.ndjson", "race.ndjson"))
         vlib.write_ndjson(pin, rows)
         rc, log, _ = vlib.go_test("./c07/", "TestRows$", env={"VERIF_IN": pin, "VERIF_OUT": pout}, timeout=1500)
